@@ -239,11 +239,16 @@ class QvmCpu:
         # addresses at which a statement starts; needed to know which
         # part of the operand stack belongs to the current statement
         # when an error is handled (ON ERROR needs debug info anyway)
+        # (a routine's entry is excluded: it is executed, as part of
+        # the calling statement, before the routine has its own frame)
         self.stmt_starts = frozenset()
         if self.module.debug_info is not None:
             self.stmt_starts = frozenset(
                 stmt.start_offset
-                for stmt in self.module.debug_info.stmts)
+                for stmt in self.module.debug_info.stmts
+            ) - frozenset(
+                routine.start_offset
+                for routine in self.module.debug_info.routines.values())
 
         self.received_keyboard_interrupt = False
         signal.signal(signal.SIGINT, self.signal_handler)
